@@ -247,7 +247,7 @@ static void case_refarray(vf_rng *r)
 		std::vector<Obj *> pool;      /* harness-held references */
 		for (int i = 0; i < 4; i++) pool.push_back(new Obj);
 		for (int i = 0; i < nops; i++) {
-			int op = (int) vf_below(r, 6), h = (int) vf_below(r, 2);
+			int op = (int) vf_below(r, 7), h = (int) vf_below(r, 2);
 			long n = (long) s[h].size(), pos = (long) vf_below(r, (uint32_t) n + 2);
 			Obj *o = pool[vf_below(r, 4)];
 			char cb[160];
@@ -295,6 +295,22 @@ static void case_refarray(vf_rng *r)
 				if (!ok) { VF_CHECK(shared, "cxxref:resize:refused", "%s", ctx.c_str()); break; }
 				s[h].resize(len, 0);
 				break; }
+			case 6: {
+				/* compact(): references move to the front in order, the slots behind them are empty; works in place */
+				vf_at("reference_array::compact"); vf_count("refarray_compact", 1);
+				long live = a[h].count(), holes_in_front = 0, seen = 0;
+				for (long j = 0; j < n; j++) { if (s[h][j]) seen++; else if (seen < live) holes_in_front++; }
+				if (holes_in_front) vf_count("state:compact-with-hole-before-reference", 1);
+				a[h].compact();
+				for (int k = 0; k < 2; k++) {
+					if (k != h && !shared) continue;
+					std::vector<Obj *> t;
+					for (size_t j = 0; j < s[k].size(); j++) if (s[k][j]) t.push_back(s[k][j]);
+					t.resize(s[k].size(), (Obj *) 0);
+					s[k] = t;
+				}
+				VF_CHECK(a[h].count() == live, "cxxref:compact:count", "%s: %ld references before compact, %ld after", ctx.c_str(), live, a[h].count());
+				break; }
 			case 5: vf_count("refarray_drop", 1); a[h] = mpt::reference_array<Obj>(); s[h].clear(); break;
 			}
 			/* oracle: slots equal model; every object's count = pool reference + slots in distinct arrays */
@@ -322,7 +338,7 @@ static void case_refarray(vf_rng *r)
 	}
 	VF_CHECK(obj_alive == 0, obj_alive > 0 ? "cxxref:object-alive-after-teardown" : "cxxref:object-destroyed-twice", "%ld objects alive after all references are gone", obj_alive);
 	vf_nontrivial();
-	vf_sample("reference_array<Obj> x2: %d copy/insert/set/clear/resize/drop operations, 4 objects", nops);
+	vf_sample("reference_array<Obj> x2: %d copy/insert/set/clear/compact/resize/drop operations, 4 objects", nops);
 }
 
 static uint64_t n_typed(void) { return vf_thorough ? 400000 : 40000; }
